@@ -559,7 +559,8 @@ package server
 //@   loop 1 invariant 0 - 1 <= rangeindex && (fresh(items) || len(items) == 0) && editRange != nil
 
 // ---- C18: the server passes the workspace's declared accounts AND commodities to the analysis, whatever the settings ----
-//@ trusted toProtocolSeverity
+//@ func toProtocolSeverity
+//@   props C06 C18
 //@   effects none
 
 // publishDiagnostics: every range sent for a load error is a value-preserving conversion (a missing range is clamped to 0:0).
@@ -796,14 +797,14 @@ package server
 //@   ensures [C16:indexed_prefix] prefix != "" && has(accounts.ByPrefix, prefix) ==> result == accounts.ByPrefix[prefix]
 //@   ensures [C16:unindexed_prefix_keeps_all] prefix != "" && !has(accounts.ByPrefix, prefix) ==> result == accounts.All
 
-//@ trusted extractAccountPrefix
-//@   effects none
-//@ trusted extractCurrentTagName
-//@   effects none
-//@ trusted formatDetailWithCount
-//@   effects none
-//@ trusted formatPayeeDetailWithCount
-//@   effects none
+//@ func extractAccountPrefix
+//@   props C06 C16
+//@ func extractCurrentTagName
+//@   props C06 C16
+//@ func formatDetailWithCount
+//@   props C06 C16
+//@ func formatPayeeDetailWithCount
+//@   props C06 C16
 //@ trusted generateDateCompletionItems
 //@   ensures len(result) == 0 || fresh(result)
 
